@@ -217,7 +217,7 @@ fn l1_body(c: &CallCase, ch: &Chooser) -> Outcome {
         server = server.send_compressed(e).accept_compressed(e);
     }
     let capture = Arc::new(Mutex::new(Capture::default()));
-    let chunking = if c.fixed_chunks { Chunking::Fixed(vec![4096, 1, 7000]) } else { Chunking::Choose { free: c.free_cuts, pending: true, empty: false } };
+    let chunking = if c.fixed_chunks { Chunking::Fixed(vec![4096, 1, 7000]) } else { Chunking::Choose { free: c.free_cuts, pending: true, empty: !c.free_cuts } };
     let direct = Direct { svc: server, ch: ch.clone(), req_chunking: chunking.clone(), resp_chunking: chunking, capture: capture.clone() };
     let mut client = EchoClient::new(direct);
     if let Some(e) = c.enc {
@@ -377,7 +377,7 @@ pub fn property(tier: Tier) -> Property {
     let l1 = Section::new(
         "l1-direct",
         Config { max_bound: tier.q(1, 2), ..Default::default() },
-        "cases: call shape x request message sequence x caller metadata x handler script (initial metadata, 0..2 messages or echo/read-all/ignore-input modes, OK or Status(code in 1..16, message menu incl. '%'/non-ASCII/control chars, details menu, metadata menu), handler-level error), a quarter of them made twice in a row on the same client and server (the second call is judged like the first); generated client -> in-process adapter -> generated server, no runtime. Environment: both bodies re-delivered with every chunking with <= bound cuts/Pending deviations (every composition for the small free-cut cases), request and response message sources may answer Pending. Oracle: the script itself (messages in order, outcome, code/message/details equal, metadata contained per key in order; handler saw the caller's messages and metadata). Non-trivial = at least one deviation taken or an error status scripted.",
+        "cases: call shape x request message sequence x caller metadata x handler script (initial metadata, 0..2 messages or echo/read-all/ignore-input modes, OK or Status(code in 1..16, message menu incl. '%'/non-ASCII/control chars, details menu, metadata menu), handler-level error), a quarter of them made twice in a row on the same client and server (the second call is judged like the first); generated client -> in-process adapter -> generated server, no runtime. Environment: both bodies re-delivered with every chunking with <= bound cuts/Pending/empty-DATA-frame deviations (every composition for the small free-cut cases), request and response message sources may answer Pending. Oracle: the script itself (messages in order, outcome, code/message/details equal, metadata contained per key in order; handler saw the caller's messages and metadata). Non-trivial = at least one deviation taken or an error status scripted.",
         call_cases(tier),
         describe,
         l1_body,
